@@ -42,7 +42,7 @@ var objMutable = map[string][]string{
 	"csv.Reader":      {"pos", "done"},
 	"io.Reader":       {"consumed"},
 	"regexp.Regexp":   {},
-	"minhash.MinHash": {"pushed", "sorted"},
+	"minhash.MinHash": {"pushed", "sorted", "content"},
 	"hash.Hash64":     {"out"},
 }
 
@@ -94,6 +94,7 @@ func (c *Ctx) freshObj(hint, kind string) Val {
 	case "regexp.Regexp":
 		o.F["id"] = scInt(c.fresh(hint+".id", SInt))
 	case "minhash.MinHash":
+		o.F["content"] = scInt(c.fresh(hint+".content", SInt))
 		o.F["pushed"] = Sc{c.fresh(hint+".pushed", arrSort(SInt, SBool)), arrSort(SInt, SBool)}
 		o.F["sorted"] = scBool(c.fresh(hint+".sorted", SBool))
 		o.F["n"] = scInt(c.fresh(hint+".n", SInt))
@@ -262,6 +263,101 @@ func init() {
 		e := c.fresh("hexerr", SInt)
 		c.assumeHere( tOr(tEq(e, "0"), localErr(e)))
 		return Tup{[]Val{c.freshVal("hexbytes", byteSeqType(), nil), scInt(e)}}, st1
+	})
+	reg("sort.Search", "binary search: for a predicate that is monotone on [0,n) (false then true) returns the smallest index at which it is true, or n; the monotonicity is a proof obligation", func(x *Exec, n *ast.CallExpr, recv ast.Expr, st *State) (Val, *State) {
+		nv, st1 := x.eval(n.Args[0], st)
+		fl, ok := ast.Unparen(n.Args[1]).(*ast.FuncLit)
+		if !ok {
+			panic(unsupported("sort.Search with a non-literal predicate"))
+		}
+		c := x.c
+		cnt := nv.(Sc).T
+		pred := func(j string) string { return x.pureClosure(fl, []Val{scInt(j)}, st1).(Sc).T }
+		// obligation: monotone on [0,n)
+		c.obligeAssume("pre@sort.Search", "", st1.pc, tForall([][2]string{{"j!a", SInt}, {"j!b", SInt}},
+			tImp(tAnd(tLe("0", "j!a"), tLt("j!a", "j!b"), tLt("j!b", cnt), pred("j!a")), pred("j!b"))), n.Pos(), "predicate passed to sort.Search is monotone on [0,n)")
+		r := c.fresh("search", SInt)
+		c.assumeHere(tAnd(tLe("0", r), tLe(r, cnt)))
+		c.assumeHere(tForall([][2]string{{"j!s", SInt}}, tImp(tAnd(tLe("0", "j!s"), tLt("j!s", r)), tNot(pred("j!s")))))
+		c.assumeHere(tImp(tLt(r, cnt), pred(r)))
+		return scInt(r), st1
+	})
+	reg("sort.Slice", "sorts the slice in place by the given less function: afterwards a permutation of the old contents, ordered by less (only length preservation and element-wise membership are assumed here)", func(x *Exec, n *ast.CallExpr, recv ast.Expr, st *State) (Val, *State) {
+		sv, st1 := x.eval(n.Args[0], st)
+		s := sv.(Sl)
+		c := x.c
+		ns := c.freshLike("sorted", s).(Sl)
+		ns.Off, ns.Len, ns.Nil = s.Off, s.Len, s.Nil
+		// every new element is one of the old elements (and vice versa): permutation witness
+		perm := c.fresh("perm", arrSort(SInt, SInt))
+		inv := c.fresh("perminv", arrSort(SInt, SInt))
+		c.assumeHere(tForall([][2]string{{"i!p", SInt}}, tImp(tAnd(tLe("0", "i!p"), tLt("i!p", s.Len)),
+			tAnd(tLe("0", tSel(perm, "i!p")), tLt(tSel(perm, "i!p"), s.Len), tEq(tSel(inv, tSel(perm, "i!p")), "i!p"))), tSel(perm, "i!p")))
+		c.assumeHere(tForall([][2]string{{"i!p", SInt}}, tImp(tAnd(tLe("0", "i!p"), tLt("i!p", s.Len)),
+			tAnd(tLe("0", tSel(inv, "i!p")), tLt(tSel(inv, "i!p"), s.Len), tEq(tSel(perm, tSel(inv, "i!p")), "i!p"))), tSel(inv, "i!p")))
+		la, lb := leaves(ns.Arr), leaves(s.Arr)
+		for i := range la {
+			c.assumeHere(tForall([][2]string{{"i!p", SInt}}, tImp(tAnd(tLe("0", "i!p"), tLt("i!p", s.Len)),
+				tEq(tSel(la[i], tAdd(s.Off, "i!p")), tSel(lb[i], tAdd(s.Off, tSel(perm, "i!p"))))), tSel(la[i], tAdd(s.Off, "i!p"))))
+		}
+		st1.ghost["perm"] = Sc{perm, arrSort(SInt, SInt)}
+		st1.ghost["perminv"] = Sc{inv, arrSort(SInt, SInt)}
+		// sortedness w.r.t. the less closure
+		if fl, ok := ast.Unparen(n.Args[1]).(*ast.FuncLit); ok {
+			st2 := x.assign(n.Args[0], ns, st1)
+			less := func(a, b string) string { return x.pureClosure(fl, []Val{scInt(a), scInt(b)}, st2).(Sc).T }
+			c.assumeHere(tForall([][2]string{{"j!a", SInt}, {"j!b", SInt}}, tImp(tAnd(tLe("0", "j!a"), tLt("j!a", "j!b"), tLt("j!b", s.Len)), tNot(less("j!b", "j!a")))))
+			return Tup{}, st2
+		}
+		return Tup{}, x.assign(n.Args[0], ns, st1)
+	})
+	reg("sort.Ints", "sorts the int slice in place in increasing order (a permutation of the old contents)", func(x *Exec, n *ast.CallExpr, recv ast.Expr, st *State) (Val, *State) {
+		sv, st1 := x.eval(n.Args[0], st)
+		s := sv.(Sl)
+		c := x.c
+		ns := c.freshLike("sortedints", s).(Sl)
+		ns.Off, ns.Len, ns.Nil = s.Off, s.Len, s.Nil
+		na, oa := ns.Arr.(Sc).T, s.Arr.(Sc).T
+		perm := c.fresh("perm", arrSort(SInt, SInt))
+		inv := c.fresh("perminv", arrSort(SInt, SInt))
+		c.assumeHere(tForall([][2]string{{"i!p", SInt}}, tImp(tAnd(tLe("0", "i!p"), tLt("i!p", s.Len)),
+			tAnd(tLe("0", tSel(perm, "i!p")), tLt(tSel(perm, "i!p"), s.Len), tEq(tSel(inv, tSel(perm, "i!p")), "i!p"),
+				tEq(tSel(na, tAdd(s.Off, "i!p")), tSel(oa, tAdd(s.Off, tSel(perm, "i!p")))))), tSel(na, tAdd(s.Off, "i!p"))))
+		c.assumeHere(tForall([][2]string{{"i!p", SInt}}, tImp(tAnd(tLe("0", "i!p"), tLt("i!p", s.Len)),
+			tAnd(tLe("0", tSel(inv, "i!p")), tLt(tSel(inv, "i!p"), s.Len), tEq(tSel(perm, tSel(inv, "i!p")), "i!p"))), tSel(inv, "i!p")))
+		c.assumeHere(tForall([][2]string{{"j!a", SInt}, {"j!b", SInt}}, tImp(tAnd(tLe("0", "j!a"), tLt("j!a", "j!b"), tLt("j!b", s.Len)),
+			tLe(tSel(na, tAdd(s.Off, "j!a")), tSel(na, tAdd(s.Off, "j!b"))))))
+		return Tup{}, x.assign(n.Args[0], ns, st1)
+	})
+	reg("regexp.MustCompile", "compiles the (constant) pattern", func(x *Exec, n *ast.CallExpr, recv ast.Expr, st *State) (Val, *State) {
+		_, st1 := x.eval(n.Args[0], st)
+		return x.c.freshObj("re", "regexp.Regexp"), st1
+	})
+	reg("(*regexp.Regexp).FindAllString", "all successive matches of the pattern in s (a function of the pattern and s); for the pattern \\S+ these are the maximal runs of non-whitespace", func(x *Exec, n *ast.CallExpr, recv ast.Expr, st *State) (Val, *State) {
+		rv, st1 := x.eval(recv, st)
+		sv, st2 := x.eval(n.Args[0], st1)
+		_, st3 := x.eval(n.Args[1], st2)
+		c := x.c
+		c.usesStr = true
+		c.declareFun("re!n", []string{SInt, SStr}, SInt)
+		c.declareFun("re!m", []string{SInt, SStr}, arrSort(SInt, SStr))
+		id := rv.(Obj).F["id"].(Sc).T
+		s := sv.(Sc).T
+		cnt := app("re!n", id, s)
+		c.assumeHere(tGe(cnt, "0"))
+		return Sl{Sc{app("re!m", id, s), arrSort(SInt, SStr)}, "0", cnt, tEq(cnt, "0"), types.Typ[types.String]}, st3
+	})
+	reg("math.Log", "natural logarithm over the reals: uninterpreted ln, monotone on positive arguments, ln 1 = 0 (floating-point rounding, NaN and infinities are not modelled)", func(x *Exec, n *ast.CallExpr, recv ast.Expr, st *State) (Val, *State) {
+		v, st1 := x.eval(n.Args[0], st)
+		x.c.used["ln"] = true
+		return Sc{app("ln", toReal(v.(Sc))), SReal}, st1
+	})
+	reg("(*github.com/fluhus/gostuff/minhash.MinHash[T]).Jaccard", "Jaccard similarity estimate of two sketches: a real in [0,1], a symmetric function of the two sketch contents", func(x *Exec, n *ast.CallExpr, recv ast.Expr, st *State) (Val, *State) {
+		a, st1 := x.eval(recv, st)
+		b, st2 := x.eval(n.Args[0], st1)
+		x.c.used["jaccard"] = true
+		ida, idb := a.(Obj).F["content"].(Sc).T, b.(Obj).F["content"].(Sc).T
+		return Sc{app("jaccard", ida, idb), SReal}, st2
 	})
 	reg("strings.ReplaceAll", "s with all non-overlapping instances of old replaced by new (opaque function of the three strings)", func(x *Exec, n *ast.CallExpr, recv ast.Expr, st *State) (Val, *State) {
 		a, st1 := x.eval(n.Args[0], st)
@@ -820,3 +916,40 @@ func externList(used map[string]bool) []string {
 }
 
 var _ = strings.Join
+
+// pureClosure evaluates a side-effect free function literal whose body is a
+// single return statement, with the given argument values (which may be bound
+// variables of a quantifier). Safety obligations inside it are not emitted:
+// the callers (sort.Search, sort.Slice) only apply it to in-range indices.
+func (x *Exec) pureClosure(fl *ast.FuncLit, args []Val, st *State) Val {
+	if len(fl.Body.List) != 1 {
+		panic(unsupported("closure passed to an extern is not a single return"))
+	}
+	rs, ok := fl.Body.List[0].(*ast.ReturnStmt)
+	if !ok || len(rs.Results) != 1 {
+		panic(unsupported("closure passed to an extern is not a single return"))
+	}
+	sub := st.clone()
+	k := 0
+	for _, f := range fl.Type.Params.List {
+		for _, nm := range f.Names {
+			if obj := x.info.Defs[nm]; obj != nil {
+				sub.vars[obj] = args[k]
+			}
+			k++
+		}
+	}
+	c := x.c
+	nObl, nFacts := len(c.obls), len(c.facts)
+	savedCounts := map[string]int{}
+	for kk, v := range c.counts {
+		savedCounts[kk] = v
+	}
+	v, _ := x.eval(rs.Results[0], sub)
+	// drop obligations and their assumed consequences generated under the bound variables
+	c.obls = c.obls[:nObl]
+	c.facts = c.facts[:nFacts]
+	c.counts = savedCounts
+	c.notes = append(c.notes, "closure body evaluated as a pure expression (index obligations inside it are discharged by the extern's own range guarantee): "+c.posOf(fl))
+	return v
+}
